@@ -7,6 +7,7 @@ import FGVerif.Model.C11
     (C11 unreachable <g> (<start> …) <r> [(<id> …)])   set of unreachable ids (sorted)
     (C11 unreachable_spec <g> (<start> …) <r> [(<id> …)])   large inputs: BFS specification on the implementation output only
     (C11 prune <I> <r> <insertH 0|1> [<flat>])    pruned graph
+    (C11 prune_spec <I> <r> <insertH 0|1> [<flat>])   large inputs: declarative pruned-graph specification on the implementation output only
 
   `<flat>` = `((node …) ((a b label) …))`: nodes sorted by id (node form of `Graph`), edges as
   sorted `(min max label)` — the order-insensitive view of a simple graph.
@@ -90,7 +91,7 @@ def handle : List SExp → Option SExp
         -- `node_index[n]` raises (out of domain: start nodes must be nodes)
         pure (.list [.atom "ok", .list [.atom "raised", .atom "KeyError"], ofBool true, none', ofBool (wellFormed g)])
       else
-        let model := getUnreachable g starts r
+        let model := getUnreachableClamped g starts r   -- the code's loop (5e2d069); = getUnreachable: C11.getUnreachableClamped_eq
         let specModel := specUnreachable g starts r model
         let specImpl ← match rest with
           | [impl] =>
@@ -115,6 +116,21 @@ def handle : List SExp → Option SExp
               pure (ofBool (specUnreachable g starts r out))
         | _ => pure none'
       pure (.list [.atom "ok", none', ofBool true, specImpl, ofBool (wellFormed g), ofBool inDom])
+  -- LARGE ITS graphs: only the declarative description of the pruned graph `specPrune` (kept atoms = breadth-first
+  -- "within r steps of an end atom of a changed bond"; proved sound: C11.specPrune_sound_checked) is applied to the
+  -- implementation's output; the matrix model `pruneItsToRc` is not evaluated (no model output, no correspondence)
+  | .atom "prune_spec" :: its :: r :: ins :: rest => do
+      let its ← asGraph its
+      let r ← asNat r
+      let ins ← asBool ins
+      let inDom := !its.nodes.isEmpty
+      let specImpl ← match rest with
+        | [impl] =>
+            if isRaised impl then pure (ofBool (!inDom)) else do
+              let f ← asFlat impl
+              pure (ofBool (specPrune its r ins (unflatten f)))
+        | _ => pure none'
+      pure (.list [.atom "ok", none', ofBool true, specImpl, ofBool (wellFormed its && simple its), none', ofBool inDom])
   | .atom "prune" :: its :: r :: ins :: rest => do
       let its ← asGraph its
       let r ← asNat r
@@ -122,7 +138,7 @@ def handle : List SExp → Option SExp
       if its.nodes.isEmpty then
         pure (.list [.atom "ok", .list [.atom "raised", .atom "Other"], ofBool true, none', ofBool true, none'])
       else
-        let model := pruneItsToRc its r ins
+        let model := pruneItsToRcClamped its r ins   -- = pruneItsToRc: C11.pruneItsToRcClamped_eq
         let specModel := specPrune its r ins model
         let fm := flatten model
         let (specImpl, corr) ← match rest with
